@@ -495,7 +495,7 @@ Proof.
   cbv zeta in FB.
   assert (F012 : saw_fin (r_p r2) = 0 \/ saw_fin (r_p r2) = 1 \/ saw_fin (r_p r2) = 2).
   { destruct B3. destruct md_fin0 as [[F _]|[[F _]|[F _]]]; auto. }
-  destruct F012 as [F|[F|F]]; rewrite F in *; cbn [Z.eqb] in *; rcbn;
+  destruct F012 as [F|[F|F]]; rewrite F in *; cbn [Z.eqb Pos.eqb] in *; rcbn;
     rewrite fold_app, FA; cbn [fold_left];
     destruct FB as (G1 & G2 & G3); rewrite G2;
     rewrite !n_alloc_app, !n_free_app in *; cbn [n_alloc n_free];
